@@ -207,6 +207,13 @@ def array_pool(rng, quick):
                 yield fmt, c.asformat(fmt)
             except Exception as e:  # noqa: BLE001
                 yield f"{fmt}-unbuildable", (c, fmt, e)
+    # 3b. GCXS whose flattened uncompressed extent is far larger than any single extent (indices up to the product)
+    for shp, ca in (((2, 20, 20), (0,)), ((20, 2, 20), (1,)), ((4, 5, 4, 5, 4), (2,)), ((3, 300), (0,))):
+        c = make_coo(rng, shp, "float64", "zero", density=0.2)
+        try:
+            yield f"gcxs-wide-{len(shp)}d", sparse.GCXS.from_coo(c, compressed_axes=ca)
+        except Exception as e:  # noqa: BLE001
+            yield "gcxs-unbuildable", (c, ca, e)
     # 4. narrow coordinate dtypes (fitting), index dtype variety
     for cd in (np.uint8, np.int8, np.int16, np.uint32, np.int32):
         shp = gen.shape(rng, 1, 3, max_size=200)
